@@ -20,7 +20,7 @@ def describe(tier):
         "did, the unpickled objects are independent of the originals; then depth-%d histories over {write any leaf on the original, on the unpickled object, "
         "allocate / free on the unpickled buffer}: both sides keep agreeing with the model; the unpickled buffer stays a working allocator (in bounds, no "
         "overlap with the unpickled objects, free total consistent with a byte-map model seeded from its free list)." % (1 if tier == "quick" else 2),
-        bounds=dict(groups=GROUPS, values=cons.VMODES, protocol=[pickle.DEFAULT_PROTOCOL, 2] if tier == "thorough" else [pickle.DEFAULT_PROTOCOL]),
+        bounds=dict(groups=GROUPS, contexts=CTXKINDS, values=cons.VMODES, protocol=[pickle.DEFAULT_PROTOCOL, 2] if tier == "thorough" else [pickle.DEFAULT_PROTOCOL]),
         assumptions=["the context of an unpickled object is a fresh serial CPU context (kernels are not pickled)"],
         must_fire=["pickle", "write-orig", "write-new", "alloc"],
     )
@@ -33,12 +33,33 @@ def shards(tier, seed):
     return out[seed % len(out):] + out[: seed % len(out)]
 
 
+_CTXKIND = ["serial"]
+CTXKINDS = ["serial", "omp", "serial-built", "omp-built"]  # "-built": kernels have been compiled on the context before anything is pickled
+_built = {}
+
+
+def context_of_kind(kind):
+    import xobjects as xo
+
+    if kind == "serial":
+        return xo.ContextCpu()
+    if kind == "omp":
+        return xo.ContextCpu(omp_num_threads=2)
+    if kind not in _built:
+        ctx = xo.ContextCpu(omp_num_threads=2 if kind.startswith("omp") else 0)
+        ctx.add_kernels(sources=["double c20_twice(double x){ return 2*x; }"], kernels={"c20_twice": xo.Kernel(args=[xo.Arg(xo.Float64, name="x")], ret=xo.Arg(xo.Float64))},
+                        extra_compile_args=("-O0", "-w"), extra_link_args=())
+        assert ctx.kernels.c20_twice(x=1.5) == 3.0
+        _built[kind] = ctx
+    return _built[kind]
+
+
 def make_group(group, make, make_at=None):
     """returns list of objects; make(buf, n) constructs object number n in buffer buf, make_at(buf, n, offset) at an explicit offset"""
     import xobjects as xo
     from xobjects.context_cpu import BufferByteArray
 
-    ctx = xo.ContextCpu()
+    ctx = context_of_kind(_CTXKIND[0])
     b1 = ctx.new_buffer(64)
     b2 = ctx.new_buffer(0)
     if group == "one":
@@ -151,10 +172,12 @@ def run_xo(name, tier, res, seed):
         sig.add((oracle, failure))
         res.violations.append(common.violation(oracle, failure, feat, case, detail))
 
-    for vmode, group, proto in itertools.product(cons.VMODES, GROUPS, protos):
+    combos = [(vm, g, pr, "serial") for vm, g, pr in itertools.product(cons.VMODES, GROUPS, protos)] + [("ramp", g, protos[0], k) for g in ("one", "two-shared") for k in CTXKINDS[1:]]
+    for vmode, group, proto, ctxkind in combos:
+        _CTXKIND[0] = ctxkind
         f = cons.feats(t, vmode, "py", group)
-        f.update(group=group, cls=name, dyn_fields=sum(1 for _, ft in t[1] if xt.is_dyn(ft)) if t[0] == "St" else None)
-        cid = dict(part="xo", name=name, type_str=xt.show(t), vmode=vmode, group=group, proto=proto)
+        f.update(group=group, cls=name, context=ctxkind, dyn_fields=sum(1 for _, ft in t[1] if xt.is_dyn(ft)) if t[0] == "St" else None)
+        cid = dict(part="xo", name=name, type_str=xt.show(t), vmode=vmode, group=group, proto=proto, context=ctxkind)
         vals = []
 
         def make(buf, n):
@@ -358,9 +381,10 @@ def run_hyb(name, tier, res, seed):
     def make_at(buf, n, offset):
         raise NotImplementedError
 
-    for group in [g for g in GROUPS if g != "explicit-offset"]:
-        f = dict(cls=name, group=group, hybrid=True)
-        cid = dict(part="hyb", name=name, group=group)
+    for group, ctxkind in [(g, "serial") for g in GROUPS if g != "explicit-offset"] + [(g, k) for g in ("one", "two-shared") for k in CTXKINDS[1:]]:
+        _CTXKIND[0] = ctxkind
+        f = dict(cls=name, group=group, hybrid=True, context=ctxkind)
+        cid = dict(part="hyb", name=name, group=group, context=ctxkind)
         try:
             objs = make_group(group, make, make_at)
             before = [hyb_read(name, o) for o in objs]
